@@ -85,18 +85,20 @@ def Conn.pollReady (fixed : Bool) (k : Conn) : Ready :=
 closed) are the ones `poll_ready` just made, so the message is queued; the sender parks itself
 when the count exceeds `buffer`. -/
 def Conn.push (buf : Nat) (e : Note) (k : Conn) : Conn :=
-  let q := k.q ++ [.notify e]
-  if q.length > buf then { k with q := q, parked := true, parkedQ := k.parkedQ ++ [true] }
-  else { k with q := q }
+  { k with
+    q := k.q ++ [.notify e]
+    parked := if (k.q ++ [Cmd.notify e]).length > buf then true else k.parked
+    parkedQ := if (k.q ++ [Cmd.notify e]).length > buf then k.parkedQ ++ [true] else k.parkedQ }
 
 /-- `start_close`: a fresh clone of the sender (never parked) sends `Close`; it fails only when the
 channel is closed. -/
 def Conn.startClose (buf : Nat) (k : Conn) : Conn :=
   if !k.rxOpen then { k with closing := true }
   else
-    let q := k.q ++ [.close]
-    if q.length > buf then { k with closing := true, q := q, parkedQ := k.parkedQ ++ [false] }
-    else { k with closing := true, q := q }
+    { k with
+      closing := true
+      q := k.q ++ [.close]
+      parkedQ := if (k.q ++ [Cmd.close]).length > buf then k.parkedQ ++ [false] else k.parkedQ }
 
 /-- `Receiver::next_message` pops a message: `unpark_one` -/
 def Conn.unparkOne (k : Conn) : Conn :=
@@ -290,11 +292,11 @@ def poolPoll (s : State) (pick : Option Nat) : State × Option Ret :=
   | [] =>
     match s.pendQ with
     | m0 :: _ =>
-      let m := match pick with
-        | some c => (s.pendQ.find? (·.id == c)).getD m0
+      let m : PendMsg := match pick with
+        | some c => (s.pendQ.find? (fun x : PendMsg => x.id == c)).getD m0
         | none => m0
-      let s1 := { s with pendQ := s.pendQ.filter (·.id != m.id), bad := s.bad || (pick != some m.id) }
-      if m.ok then ({ s1 with conns := s1.conns ++ [{ id := m.id, peer := m.peer }] }, some (.est m.id m.peer))
+      let s1 := { s with pendQ := s.pendQ.filter (fun x : PendMsg => x.id != m.id), bad := s.bad || (pick != some m.id) }
+      if m.ok then ({ s1 with conns := s1.conns ++ [({ id := m.id, peer := m.peer } : Conn)] }, some (.est m.id m.peer))
       else (s1, some (.fail m.id))
     | [] => (advanceLocal s, none)
 
@@ -327,11 +329,15 @@ inductive ECmd where
   | gen
   deriving DecidableEq, Repr, Inhabited
 
+/-- harness convention: a connection name that has not been handed out yet when the command is
+queued denotes no connection at all (the harness has no `ConnectionId` for it) -/
+def State.resolve (s : State) (c : Nat) : Nat := if c < s.nextConn then c else c + 1000000
+
 def pushCmds (s : State) : List ECmd → State
   | [] => s
-  | .one c :: r => pushCmds { s with behQ := s.behQ ++ [.one c s.nextEv], nextEv := s.nextEv + 1 } r
+  | .one c :: r => pushCmds { s with behQ := s.behQ ++ [.one (s.resolve c) s.nextEv], nextEv := s.nextEv + 1 } r
   | .any p ch :: r => pushCmds { s with behQ := s.behQ ++ [.any p s.nextEv ch], nextEv := s.nextEv + 1 } r
-  | .closeOne c :: r => pushCmds { s with behQ := s.behQ ++ [.closeOne c] } r
+  | .closeOne c :: r => pushCmds { s with behQ := s.behQ ++ [.closeOne (s.resolve c)] } r
   | .closeAll p :: r => pushCmds { s with behQ := s.behQ ++ [.closeAll p] } r
   | .gen :: r => pushCmds { s with behQ := s.behQ ++ [.gen] } r
 
@@ -354,7 +360,7 @@ inductive Out where
 
 def insertBy (x : Nat × Nat) : List (Nat × Nat) → List (Nat × Nat)
   | [] => [x]
-  | y :: r => if x.1 < y.1 then x :: y :: r else y :: insertBy x r
+  | y :: r => if x.1 ≤ y.1 then x :: y :: r else y :: insertBy x r
 
 /-- stable sort by connection -/
 def groupByConn (l : List (Nat × Nat)) : List (Nat × Nat) := l.foldr insertBy []
@@ -380,6 +386,7 @@ def step (s : State) : Op → State × Out
     (s', .poll ret (groupByConn (s'.log.drop s.log.length))
                    (sortNat ((s'.dropped.drop s.dropped.length).map (·.e.n))) s'.conns.length s'.bad)
 
-def State.init (buf : Nat) (fixed : Bool := true) : State := { buf := buf, fixed := fixed }
+/-- `Config::with_notify_handler_buffer_size(n)`: the command channel is `mpsc::channel(n - 1)` -/
+def State.init (n : Nat) (fixed : Bool := true) : State := { buf := n - 1, fixed := fixed }
 
 end C07
